@@ -275,6 +275,7 @@ BaseTrees ==
     Ip4El("p", 4, 5, 0, 0, 0, 0, 17, 8, 12).tree, Ip4El("p", 4, 15, 63, 3, 7, 8191, 1, 9, 4).tree, Ip4El("p", 4, 6, 0, 0, 0, 0, 6, 10, 20).tree,
     Ip6El("p", 6, 255, 1048575, <<>>, 58, 11, 8, 0, 0, FALSE).tree, Ip6El("p", 6, 1, 2, <<"hbh">>, 17, 12, 3, 1, 0, FALSE).tree,
     Ip6El("p", 6, 1, 2, <<"fr", "rt", "hbh">>, 6, 13, 9, 3, 100, TRUE).tree,
+    HbhBig("h", 17, 40, 44).tree, Ip6With("i", <<HbhBig("h", 17, 40, 45)>>, <<>>, 0, 17, 46, 5).tree,
     HbhEl("h", 58, 0, 14).tree, HbhEl("h", 17, 3, 15).tree, RtEl("r", 58, 0, 16).tree, RtEl("r", 44, 2, 17).tree, FragEl("f", 17, 100, TRUE, 18).tree,
     OptEl("o", 5, 0, 19).tree, OptEl("o", 194, 4, 20).tree,
     IcmpEl("x", 21, 0).tree, IcmpEl("x", 22, 12).tree, UdpEl("x", 23, 0).tree, UdpEl("x", 24, 20).tree, TcpEl("x", 25, 5, 18, 0).tree, TcpEl("x", 26, 8, 63, 16).tree,
